@@ -434,3 +434,37 @@ Example C13_env_headers_arrive_nonvacuous :
   | Panic => False
   end.
 Proof. vm_compute. repeat split; reflexivity. Qed.
+
+(* ---------- several fastcgi rules ---------- *)
+(* The clause "an existing file with the rule's extension under the rule's path always reaches the responder"
+   over ALL rules of a site: a rule that matches the path but cannot split it (its split string does not occur
+   in the path) and has no index file for it is passed over - the "no index file present" branch of
+   Handler.ServeHTTP continues with the next rule, it does not hand the request to the next middleware
+   (the static file server) - for EVERY rule list, file system and path ... *)
+Theorem C13_unsplittable_rule_is_skipped :
+  forall cs stat_ok open_ok r rest i p,
+  index_file open_ok (trim_right p) (r_index r) = None ->
+  can_split cs r (trim_right p) = false ->
+  serve cs stat_ok open_ok (r :: rest) i p = serve cs stat_ok open_ok rest (S i) p.
+Proof. exact unsplittable_rule_is_skipped. Qed.
+Print Assumptions C13_unsplittable_rule_is_skipped.
+
+(* ... hence a script of a LATER rule is sent to a responder whatever rules that cannot split it stand in
+   front (a catch-all php rule before the rule of another responder) *)
+Theorem C13_later_rule_claims_its_script :
+  forall cs stat_ok open_ok pre rest i p r,
+  Forall (fun r0 => index_file open_ok (trim_right p) (r_index r0) = None /\ can_split cs r0 (trim_right p) = false) pre ->
+  rule_matches cs r p = true -> allowed cs r p = true ->
+  r_ext r <> [] -> last_byte (r_ext r) <> Some SLASH ->
+  has_suffix (to_lower (trim_right p)) (to_lower (r_ext r)) = true ->
+  can_split cs r (trim_right p) = true ->
+  exists j, serve cs stat_ok open_ok (pre ++ r :: rest) i p = ODispatch j (trim_right p).
+Proof. exact later_rule_claims_its_script. Qed.
+Print Assumptions C13_later_rule_claims_its_script.
+
+Example C13_later_rule_claims_its_script_nonvacuous :
+  can_split false php_rule (bs "/cgi/tool.pl") = false /\
+  serve false (fun _ => true) (fun _ => true) [php_rule; pl_rule] 0 (bs "/cgi/tool.pl") = ODispatch 1 (bs "/cgi/tool.pl") /\
+  serve false (fun _ => false) (fun _ => false) [php_rule; pl_rule] 0 (bs "/cgi/tool.pl/extra/info") = ODispatch 1 (bs "/cgi/tool.pl/extra/info") /\
+  serve false (fun _ => true) (fun _ => true) [php_rule] 0 (bs "/cgi/tool.pl") = ONext.
+Proof. exact later_rule_witness. Qed.
